@@ -403,12 +403,16 @@ def handleProgram (j : Json) : Except String Verdict := do
   let mut spec := true
   let mut why := ""
   -- a kernel that fails the same way with collection off is not a matter of this property (tagged, not judged)
-  if offErr && on.compress != off.compress then
+  -- the collecting run's abort is classified by its own cause first: the populate shape assertion is the
+  -- documented class whether or not the same kernel also fails (later, elsewhere) with collection off
+  let shapeAssert := onErr && (errLine.splitOn "insert_pos is not None").length > 1
+  if offErr && on.compress != off.compress && !shapeAssert then
     spec := false; why := why ++ "transparent: the kernel fails with collection off and behaves differently with collection on; "
-  if onErr && !offErr then
+  if onErr && (!offErr || shapeAssert) then
     spec := false
-    why := why ++ (if (errLine.splitOn "insert_pos is not None").length > 1 then
-        "transparent: the kernel aborts with collection on (lshift_iterator asserts insert_pos is not None: insertion with the write trace on, output shape not declared) but runs with collection off; "
+    why := why ++ (if shapeAssert then
+        "transparent: the kernel aborts with collection on (lshift_iterator asserts insert_pos is not None: insertion with the write trace on, output shape not declared) " ++
+          (if offErr then "before the point where it fails, for another reason, with collection off; " else "but runs with collection off; ")
       else s!"transparent: the kernel aborts with collection on ({errLine}) but runs with collection off; ")
   else if !onErr && on.compress != off.compress then
     spec := false; why := why ++ "transparent: results with collection on and off differ; "
